@@ -290,6 +290,25 @@ pub proof fn lemma_limbs_cmp(x: Seq<u64>, n: Seq<u64>, sz: int, k: int)
         requires xs[k] < ns[k], pk >= 0;
 }
 
+/// little-endian words of equal length with the same value are the same words
+pub proof fn lemma_limbs_inj(x: Seq<u64>, y: Seq<u64>)
+    requires x.len() == y.len(), limbs(x) == limbs(y)
+    ensures x =~= y
+    decreases x.len()
+{
+    reveal(limbs);
+    if x.len() > 0 {
+        let tx = x.subrange(1, x.len() as int);
+        let ty = y.subrange(1, y.len() as int);
+        vstd::arithmetic::div_mod::lemma_fundamental_div_mod_converse(limbs(x) as int, W() as int, limbs(tx) as int, x[0] as int);
+        vstd::arithmetic::div_mod::lemma_fundamental_div_mod_converse(limbs(y) as int, W() as int, limbs(ty) as int, y[0] as int);
+        lemma_limbs_inj(tx, ty);
+        assert forall|i: int| 0 <= i < x.len() implies x[i] == y[i] by {
+            if i > 0 { assert(x[i] == tx[i - 1]); assert(y[i] == ty[i - 1]); }
+        }
+    }
+}
+
 pub proof fn lemma_limbs_eq(x: Seq<u64>, n: Seq<u64>, sz: int)
     requires 0 <= sz <= x.len(), sz <= n.len(), forall|j: int| 0 <= j < sz ==> x[j] == n[j],
     ensures limbs(x.take(sz)) == limbs(n.take(sz))
